@@ -82,6 +82,7 @@ class Sched:
         self.prefix = repo.LIB_PREFIX
         self.tids = {}
         self.use_mon = _mon_setup()
+        self.on_point = None  # optional observer (tid, point number), called at every scheduling point
 
     def _point(self, code, line=None):
         """A library function is entered (or, inside a state-changing function, a line is reached) in the calling thread."""
@@ -89,6 +90,8 @@ class Sched:
         if tid is None or self.done[tid]:
             return
         self.counts[tid] += 1
+        if self.on_point is not None:
+            self.on_point(tid, self.counts[tid])
         to = self.plan.get((tid, self.counts[tid]))
         if to is not None and not self.done[to] and to != tid:
             self.switches.append((tid, self.counts[tid], to, code.co_name if line is None else f"{code.co_name}:{line}"))
